@@ -329,6 +329,7 @@ class C18Hibernation(Monitor):
 
     def on_generator(self, g, out, tree):
         self.round_generated = {d.id: len(c.individuals) for d, c in out.items()}
+        self.round_generator = type(g).__name__
 
     def on_filter(self, f, before, after, tree):
         for d0, inds in before.items():
@@ -342,11 +343,24 @@ class C18Hibernation(Monitor):
         if not sleepers:
             return "no sleeping non-leaf deme"
         gen_ = getattr(self, "round_generated", {})
-        if all(gen_.get(d.id, 0) == 0 for d in sleepers):
-            return "no candidate was generated for the sleeping demes"
-        flt = sorted({f for d in sleepers for f in getattr(self, "round_removed_by", {}).get(d.id, [])})
-        self.last_rejecting_filters = flt
-        return "every generated candidate of the sleeping demes was rejected by the filter chain" if flt else "candidates were generated and not rejected, yet nothing was sprouted"
+        gname = getattr(self, "round_generator", "?")
+        removed = getattr(self, "round_removed_by", {})
+        classes = set()
+        for d in sleepers:
+            n = gen_.get(d.id)
+            if n is None:
+                if gname == "NBCGeneratorWithLocalMethod" and d.level == len(tree.levels) - 2:
+                    classes.add("local-method generator offers nothing for an active deme of the last-but-one level")
+                else:
+                    classes.add(f"{gname} returned no entry for an active non-leaf deme")
+            elif n == 0:
+                classes.add(f"{gname} returned an empty candidate list for an active non-leaf deme")
+            elif removed.get(d.id):
+                classes.add("every generated candidate was rejected by the filter chain")
+            else:
+                classes.add("candidates were generated and not rejected, yet nothing was sprouted")
+        self.last_rejecting_filters = sorted({f for d in sleepers for f in removed.get(d.id, [])})
+        return " / ".join(sorted(classes))
 
     def on_sprout_end(self, tree, seeds):
         hib = self._hib()
